@@ -6,6 +6,7 @@ Require Import C05Lru C03LintGroupLru C03LintGroupLruProofs Tables_c03cache.
 Require TokenSeq Pattern.
 Require Import C03ChunkPremise.
 Require C03Roots Tables_c03roots C03RootsProofs.
+Require C03StructRoots Tables_c03structroots C03StructRootsProofs.
 
 (* the edit primitive: total on spans inside the text *)
 Theorem C03_apply_total : forall s sp src, span_in (length src) sp -> is_ok (apply s sp src) = true.
@@ -644,3 +645,133 @@ Example C03_table_rule_nonvacuous :
   C03Roots.eval_src C03RootsProofs.exr_chunk (fun _ => 6) (C03Roots.ATok (C03Roots.IDyn 0)) = None /\
   C03Roots.eval_src (firstn 2 C03RootsProofs.exr_chunk) (fun _ => 0) (C03Roots.AHull (Some (C03Roots.IConst 0)) (C03Roots.HExcl (C03Roots.IConst 3))) = None.
 Proof. exact (proj2 C03RootsProofs.table_rule_example). Qed.
+
+(* ================= phase 6: the WHOLE-DOCUMENT (struct) rules' premise, reduced to one named rule =================
+   Tables_c03structroots.v (regenerated on every run by tools/tables/c03structroots.py) parses the span of every Lint every
+   `impl Linter for X` of linting/*.rs can construct (fn lint and the helpers it calls) into DTok | DHull | DBetween | DSuffix |
+   DWithLen1 | DUnknown and records the root of its tokens (document / chunk / sentence / paragraph / helper parameter / other). *)
+
+(* every classified source, for EVERY value of its run-time token indices, over tokens inside the source (the C02 token
+   invariant: start <= end <= n) denotes a span inside the document; no side condition (Span::new out of order: panic, no lint;
+   pulled_by(2) below 2: None, no lint) *)
+Theorem C03_struct_span_expr_in_document :
+  forall (kind : Type) n (ts : list (Cache.tok kind)) dyn a s,
+    Forall (C03RootsProofs.tok_within 0 n) ts -> C03StructRoots.dsrc_classified a = true ->
+    C03StructRoots.eval_dsrc ts dyn a = Some s -> span_in n s.
+Proof. exact C03StructRootsProofs.eval_dsrc_in. Qed.
+Check C03_struct_span_expr_in_document :
+  forall (kind : Type) n (ts : list (Cache.tok kind)) dyn a s,
+    Forall (C03RootsProofs.tok_within 0 n) ts -> C03StructRoots.dsrc_classified a = true ->
+    C03StructRoots.eval_dsrc ts dyn a = Some s -> span_in n s.
+Print Assumptions C03_struct_span_expr_in_document.
+
+(* a whole-document rule = any number of lints per call, each made by one of the Lint constructions of a CLASSIFIED row of the
+   table with any run-time indices and payload, over tokens `dtoks d` that satisfy the invariant: it satisfies wrules_ok; rules
+   that are not such rows keep their premise (second disjunct) *)
+Theorem C03_table_struct_rules_ok :
+  forall (dtoks : ldoc C03Roots.pkind -> list (Cache.tok C03Roots.pkind)) (linters : list (N * wrule C03Roots.pkind)),
+    (forall d, doc_ok C03Roots.pkind d -> Forall (C03RootsProofs.tok_within 0 (length (l_src d))) (dtoks d)) ->
+    (forall n r, In (n, r) linters ->
+       (exists row sel, In row Tables_c03structroots.struct_rule_bodies /\ C03StructRoots.drow_classified row = true /\
+                        r = C03StructRoots.struct_wrule dtoks (C03StructRoots.drow_srcs row) sel) \/
+       (forall t d, doc_ok C03Roots.pkind d -> Forall (lint_in (length (l_src d))) (r t d))) ->
+    forall n r t d, In (n, r) linters -> doc_ok C03Roots.pkind d -> Forall (lint_in (length (l_src d))) (r t d).
+Proof. exact C03StructRootsProofs.table_struct_rules_ok. Qed.
+Check C03_table_struct_rules_ok :
+  forall (dtoks : ldoc C03Roots.pkind -> list (Cache.tok C03Roots.pkind)) (linters : list (N * wrule C03Roots.pkind)),
+    (forall d, doc_ok C03Roots.pkind d -> Forall (C03RootsProofs.tok_within 0 (length (l_src d))) (dtoks d)) ->
+    (forall n r, In (n, r) linters ->
+       (exists row sel, In row Tables_c03structroots.struct_rule_bodies /\ C03StructRoots.drow_classified row = true /\
+                        r = C03StructRoots.struct_wrule dtoks (C03StructRoots.drow_srcs row) sel) \/
+       (forall t d, doc_ok C03Roots.pkind d -> Forall (lint_in (length (l_src d))) (r t d))) ->
+    forall n r t d, In (n, r) linters -> doc_ok C03Roots.pkind d -> Forall (lint_in (length (l_src d))) (r t d).
+Print Assumptions C03_table_struct_rules_ok.
+
+(* today's table: every `impl Linter for` of linting/*.rs is classified EXCEPT (at most) SentenceCapitalization
+   (`first_word.span.with_len(1)` needs a non-empty word token) — C03StructRootsProofs.struct_rules_with_premise is the list of
+   this one name; a new unclassified rule breaks this theorem *)
+Theorem C03_struct_rules_with_premise :
+  forallb (fun n => existsb (String.eqb n) C03StructRootsProofs.struct_rules_with_premise)
+          C03StructRootsProofs.struct_rows_unclassified = true /\
+  15 <= length Tables_c03structroots.struct_rule_bodies /\
+  length (filter C03StructRoots.drow_classified Tables_c03structroots.struct_rule_bodies) +
+    length C03StructRootsProofs.struct_rows_unclassified = length Tables_c03structroots.struct_rule_bodies.
+Proof. exact C03StructRootsProofs.struct_table_today. Qed.
+Check C03_struct_rules_with_premise :
+  forallb (fun n => existsb (String.eqb n) C03StructRootsProofs.struct_rules_with_premise)
+          C03StructRootsProofs.struct_rows_unclassified = true /\
+  15 <= length Tables_c03structroots.struct_rule_bodies /\
+  length (filter C03StructRoots.drow_classified Tables_c03structroots.struct_rule_bodies) +
+    length C03StructRootsProofs.struct_rows_unclassified = length Tables_c03structroots.struct_rule_bodies.
+Print Assumptions C03_struct_rules_with_premise.
+
+(* the token invariant itself follows from doc_ok when the tokens are those of the document's chunks *)
+Theorem C03_chunk_tokens_in_source :
+  forall (kind : Type) (d : ldoc kind), doc_ok kind d ->
+    Forall (C03RootsProofs.tok_within 0 (length (l_src d))) (concat (l_chunks d)).
+Proof. exact C03StructRootsProofs.chunk_tokens_in_source. Qed.
+Check C03_chunk_tokens_in_source :
+  forall (kind : Type) (d : ldoc kind), doc_ok kind d ->
+    Forall (C03RootsProofs.tok_within 0 (length (l_src d))) (concat (l_chunks d)).
+Print Assumptions C03_chunk_tokens_in_source.
+
+(* LintGroup::lint over every history: pattern rules = rules of the pattern table, whole-document rules = classified rows of the
+   struct table (or rules with their own premise: today only the one named above and rules outside linting/*.rs): given the token
+   invariant, no call panics and every lint lies inside the document of its call *)
+Theorem C03_table_struct_lintgroup_history_in_bounds :
+  forall (cfg : Type) (enabled : cfg -> N -> bool) (cfg_hash : cfg -> N) (tok_hash : list (Cache.tok C03Roots.pkind) -> N)
+         (dtoks : ldoc C03Roots.pkind -> list (Cache.tok C03Roots.pkind))
+         (linters : list (N * wrule C03Roots.pkind)) (plinters : list (N * prule C03Roots.pkind)),
+    (forall d, doc_ok C03Roots.pkind d -> Forall (C03RootsProofs.tok_within 0 (length (l_src d))) (dtoks d)) ->
+    (forall n r, In (n, r) linters ->
+       (exists row sel, In row Tables_c03structroots.struct_rule_bodies /\ C03StructRoots.drow_classified row = true /\
+                        r = C03StructRoots.struct_wrule dtoks (C03StructRoots.drow_srcs row) sel) \/
+       (forall t d, doc_ok C03Roots.pkind d -> Forall (lint_in (length (l_src d))) (r t d))) ->
+    (forall n r, In (n, r) plinters ->
+       exists row leaf oracle p sel,
+         In row Tables_c03roots.pattern_rule_bodies /\ C03Roots.row_lints_matched row = true /\
+         r = C03Roots.pattern_prule leaf oracle p (C03Roots.row_lint_asts row) sel) ->
+    forall (h : list (lop cfg C03Roots.pkind)) (st : lstate cfg),
+      hist_ok cfg C03Roots.pkind h -> cache_ok (lg_cache st) ->
+      exists st' outs,
+        lg_run cfg C03Roots.pkind enabled cfg_hash tok_hash linters plinters h st = Ok (st', outs) /\
+        cache_ok (lg_cache st') /\
+        map fst outs = hist_docs cfg C03Roots.pkind h /\
+        Forall (fun p => Forall (lint_in (length (l_src (fst p)))) (snd p)) outs.
+Proof. exact C03StructRootsProofs.table_struct_lintgroup_history_in_bounds. Qed.
+Check C03_table_struct_lintgroup_history_in_bounds :
+  forall (cfg : Type) (enabled : cfg -> N -> bool) (cfg_hash : cfg -> N) (tok_hash : list (Cache.tok C03Roots.pkind) -> N)
+         (dtoks : ldoc C03Roots.pkind -> list (Cache.tok C03Roots.pkind))
+         (linters : list (N * wrule C03Roots.pkind)) (plinters : list (N * prule C03Roots.pkind)),
+    (forall d, doc_ok C03Roots.pkind d -> Forall (C03RootsProofs.tok_within 0 (length (l_src d))) (dtoks d)) ->
+    (forall n r, In (n, r) linters ->
+       (exists row sel, In row Tables_c03structroots.struct_rule_bodies /\ C03StructRoots.drow_classified row = true /\
+                        r = C03StructRoots.struct_wrule dtoks (C03StructRoots.drow_srcs row) sel) \/
+       (forall t d, doc_ok C03Roots.pkind d -> Forall (lint_in (length (l_src d))) (r t d))) ->
+    (forall n r, In (n, r) plinters ->
+       exists row leaf oracle p sel,
+         In row Tables_c03roots.pattern_rule_bodies /\ C03Roots.row_lints_matched row = true /\
+         r = C03Roots.pattern_prule leaf oracle p (C03Roots.row_lint_asts row) sel) ->
+    forall (h : list (lop cfg C03Roots.pkind)) (st : lstate cfg),
+      hist_ok cfg C03Roots.pkind h -> cache_ok (lg_cache st) ->
+      exists st' outs,
+        lg_run cfg C03Roots.pkind enabled cfg_hash tok_hash linters plinters h st = Ok (st', outs) /\
+        cache_ok (lg_cache st') /\
+        map fst outs = hist_docs cfg C03Roots.pkind h /\
+        Forall (fun p => Forall (lint_in (length (l_src (fst p)))) (snd p)) outs.
+Print Assumptions C03_table_struct_lintgroup_history_in_bounds.
+
+(* non-vacuity: the row of MergeWords as a rule over the chunk tokens of "ab cd ef." at 2..11 (two lints; Span::new out of
+   order and a missing token give none); hull and suffix sources; why with_len(1) is not classified *)
+Example C03_struct_table_rule_nonvacuous :
+  C03StructRoots.d_name C03StructRootsProofs.exs_row = C03StructRootsProofs.exs_name /\
+  C03StructRoots.drow_srcs C03StructRootsProofs.exs_row = [C03StructRoots.DBetween; C03StructRoots.DBetween] /\
+  C03StructRootsProofs.struct_table_rule (fun d => concat (l_chunks d)) C03StructRootsProofs.exs_rule /\
+  doc_ok C03Roots.pkind C03StructRootsProofs.exs_doc /\
+  C03StructRootsProofs.exs_rule 0 C03StructRootsProofs.exs_doc = [mkclint (mkspan 2 7) 7%N; mkclint (mkspan 5 10) 8%N] /\
+  C03StructRoots.eval_dsrc C03RootsProofs.exr_chunk (fun j => 2 * j + 2) C03StructRoots.DHull = Some (mkspan 5 8) /\
+  C03StructRoots.eval_dsrc C03RootsProofs.exr_chunk (fun _ => 4) C03StructRoots.DSuffix = Some (mkspan 8 10) /\
+  C03StructRoots.eval_dsrc [((0, 1%N, 0), mkspan 0 1)] (fun _ => 0) C03StructRoots.DSuffix = None /\
+  C03StructRoots.eval_dsrc [((0, 1%N, 0), mkspan 11 11)] (fun _ => 0) C03StructRoots.DWithLen1 = Some (mkspan 11 12) /\
+  ~ span_in 11 (mkspan 11 12).
+Proof. exact C03StructRootsProofs.struct_table_rule_example. Qed.
